@@ -61,8 +61,9 @@ type frame struct {
 }
 
 type fnInfo struct {
-	idx map[ssa.Value]int
-	n   int
+	idx  map[ssa.Value]int
+	n    int
+	pool [][]value
 }
 
 // Interp is one interpreter instance (one per worker; not goroutine safe).
@@ -705,7 +706,12 @@ func (i *Interp) callSSA(caller *frame, callpos token.Pos, fn *ssa.Function, arg
 	}
 	fi := i.info(fn)
 	fr.idx = fi.idx
-	fr.env = make([]value, fi.n)
+	if np := len(fi.pool); np > 0 {
+		fr.env = fi.pool[np-1]
+		fi.pool = fi.pool[:np-1]
+	} else {
+		fr.env = make([]value, fi.n)
+	}
 	fr.block = fn.Blocks[0]
 	fr.locals = make([]value, len(fn.Locals))
 	for k, l := range fn.Locals {
@@ -721,6 +727,9 @@ func (i *Interp) callSSA(caller *frame, callpos token.Pos, fn *ssa.Function, arg
 	for fr.block != nil {
 		i.runFrame(fr)
 	}
+	clear(fr.env)
+	fi.pool = append(fi.pool, fr.env)
+	fr.env = nil
 	return fr.result
 }
 
